@@ -142,10 +142,15 @@ func parseValue(s string) (v int64, ok bool, gray bool) {
 		neg = t[0] == '-'
 		t = t[1:]
 	}
-	// forms Go's base-0 ParseInt accepts but C does not, and blanks: gray
-	lt := strings.ToLower(t)
-	if strings.HasPrefix(lt, "0b") || strings.HasPrefix(lt, "0o") || strings.Contains(t, "_") || strings.TrimSpace(s) != s {
+	// surrounding blanks: gray (shells accept them, go.sh does not)
+	if strings.TrimSpace(s) != s {
 		return 0, false, true
+	}
+	// forms Go's base-0 ParseInt accepts but which are not decimal, octal or
+	// hexadecimal constants: non-numeric (bash and dash reject them)
+	lt := strings.ToLower(t)
+	if strings.HasPrefix(lt, "0b") || strings.HasPrefix(lt, "0o") || strings.Contains(t, "_") {
+		return 0, false, false
 	}
 	u, ok, gray := ParseConst(t)
 	if !ok || gray {
